@@ -379,8 +379,23 @@ impl IndexManager {
             entry_block.block_size, entry_block.block_hash
         );
 
-        // Read entry data (limited to block_size for safety)
+        // Read entry data (limited to block_size for safety). The size is a field of the
+        // file: it cannot exceed what is left of the file behind the block header.
         let entry_data_size = entry_block.block_size as usize;
+        let file_len = reader
+            .get_ref()
+            .metadata()
+            .map_err(|e| StorageError::Index(format!("Failed to read file metadata: {e}")))?
+            .len();
+        let position = reader
+            .stream_position()
+            .map_err(|e| StorageError::Index(format!("Failed to read entry data: {e}")))?;
+        if entry_data_size as u64 > file_len.saturating_sub(position) {
+            return Err(StorageError::Index(format!(
+                "Failed to read entry data: block size {entry_data_size} exceeds the {} bytes left in the file",
+                file_len.saturating_sub(position)
+            )));
+        }
         let mut entry_data = vec![0u8; entry_data_size];
         reader
             .read_exact(&mut entry_data)
